@@ -742,6 +742,46 @@ def run(tier):
                                 'behaviour_on_excluded_inputs': excl, 'sink_dispatch': dcov})
 
 
+def dispatch_phase(ck, tier, broken, n_quick=400, n_thorough=5000, skip_multiline_option_zone=True):
+    """the sink-dispatch part (d) alone, for another property's check (C16: "each sink receives the line formatted
+    with its own override pattern if it has one, else the logger's"): obligations of Properties_C12d, T-src fact,
+    patd correspondence through the real backend + the dispatch monitor. Adds violations to ck; returns coverage."""
+    from props import patd_common as D
+    from props.c01 import srcfacts_values
+    for o in ck.coq_obligations('Properties_C12d'):
+        if not o['discharged']: broken.append('theorem %s: %s' % (o['name'], o['why']))
+    reinit = srcfacts_values().get('be_log_to_write_reinit_per_sink')
+    hoist = 0 if reinit == 'true' else 1
+    ck.tie.append({'T-src facts': {'be_log_to_write_reinit_per_sink': reinit}, 'model variant for the dispatch correspondence': 'hoist=%d' % hoist})
+    mexe, iexe = build(ck)
+    if not mexe: return {'built': False}
+    orc = Oracle(ck, iexe)
+    dobjs = D.gen(ck.rng, n_quick if tier == 'quick' else n_thorough, hoist)
+    allpairs = []
+    for o in dobjs: allpairs += D.needed_pairs(o)
+    orc.fields(allpairs)
+    cp = [with_hoist(c, hoist) for c in corpus() if c.startswith('patd ')]
+    cases = cp + [D.enc_case(o, orc) for o in dobjs]
+    if skip_multiline_option_zone:
+        # the open finding about the multi-line option of override options belongs to C12: those inputs are left to C12
+        cases = [c for c in cases if D.decode(c) is None or not D.in_override_multiline_zone(D.decode(c))]
+    ml = ck.run_model(mexe, cases)
+    il = ck.run_impl(iexe, cases, timeout=600)
+    ml = [norm_obs(c, norm_model(m, i)) for c, m, i in zip(cases, ml, il)]
+    ml = [(i if not D.model_is_prediction(m) else m) for c, m, i in zip(cases, ml, il)]
+    il = [norm_obs(c, i) for c, i in zip(cases, il)]
+    def shrink(case, mode):
+        return D.shrink_case(ck, mexe, iexe, orc, case, mode, lambda m, i: (not D.model_is_prediction(m)) or m == i)
+    before = len(ck.violations)
+    dis, mon = correspond(ck, 'M-PATD vs BackendWorker sink dispatch', cases, ml, il, monitor=monitor, shrink=shrink, known_match=known_match)
+    nt = sum(1 for c, i in zip(cases, il) if D.decode(c) is not None and D.nontrivial(D.decode(c), i))
+    if hoist == 1 and len(ck.violations) == before:
+        ck.violation('model-witness', 'SrcFacts.be_log_to_write_reinit_per_sink = false: a sink without override behind a sink with an override pattern is handed the override line (theorem C12d_hoisted_refuted)',
+                     case=with_hoist(D.corpus_cases(orc, 1)[0], 1), expected='the plain sink is handed the line of the logger\'s pattern',
+                     observed='model variant hoist=1: the plain sink is handed the override line')
+    return {'dispatch_cases': len(cases), 'override_sink_before_plain_sink_both_written': nt, 'disagreements': len(dis), 'monitor_failures': len(mon), 'model_variant_hoist': hoist}
+
+
 def with_hoist(case, hoist):
     """a corpus patd line carries the model's variant flag as its first number: set it to the variant of this run"""
     if not case.startswith('patd '): return case
